@@ -366,7 +366,7 @@ func wildListing(r *vh.Run, i int) {
 	lay := &vh.Blob{Name: "wlayer", B: []byte(fmt.Sprintf("layer of wild trial %d", i))}
 	lay.D = vh.DigestOf("sha256", lay.B)
 	img := vh.MkImage("wimg", "sha256", vh.MTImage, cfg, vh.MTConfig, []vh.Descriptorish{{MT: vh.MTLayer, D: lay.D, Size: len(lay.B)}}, "", "", map[string]string{"w": fmt.Sprint(i)})
-	listAs := []string{vh.MTLayer, "application/octet-stream", vh.MTConfig, "application/vnd.oci.empty.v1+json"}[(i/3)%4]
+	listAs := []string{vh.MTLayer, "application/octet-stream", vh.MTConfig, "application/vnd.oci.empty.v1+json", vh.MTIndex, vh.MTDockerList}[(i/3)%6]
 	idx := vh.MkIndexX("widx", "sha256", vh.MTIndex, []*vh.Man{img}, "", "", map[string]string{"w": fmt.Sprint(i)}, vh.MkOpt{ListAs: map[string]string{img.D: listAs}})
 	put := func(m *vh.Man, tag string) int {
 		return vh.Do(srv, vh.Req{Method: "PUT", URL: vh.ManifestURL("w", m, tag), H: map[string]string{"Content-Type": m.MT}, Body: m.Raw}).Status
@@ -376,7 +376,7 @@ func wildListing(r *vh.Run, i int) {
 	}
 	// the order of the two entries in the index differs with the order of the pushes
 	var st1, st2 int
-	if (i/12)%2 == 0 {
+	if (i/18)%2 == 0 {
 		st1, st2 = put(img, "image"), put(idx, "index")
 	} else {
 		st1 = put(img, "")
@@ -393,7 +393,7 @@ func wildListing(r *vh.Run, i int) {
 		_ = srv.VerifGC(context.Background(), "w")
 	}
 	r.Count("wild_listing_trials", 1)
-	r.Distinct("wild_listing_cells", fmt.Sprintf("%s/%s/%d", kind, listAs, (i/12)%2))
+	r.Distinct("wild_listing_cells", fmt.Sprintf("%s/%s/%d", kind, listAs, (i/18)%2))
 	wit := map[string]any{"trial": i, "store": kind.String(), "listed_as": listAs, "policy": fmt.Sprintf("%+v", pol)}
 	for _, u := range []string{"/v2/w/manifests/image", "/v2/w/blobs/" + cfg.D, "/v2/w/blobs/" + lay.D} {
 		g := vh.Do(srv, vh.Req{Method: "GET", URL: u, H: map[string]string{"Accept": vh.AcceptAll}})
